@@ -119,3 +119,20 @@ func VerifMaxHexIntChars() int { return maxHexIntChars }
 // VerifReadHexInt and VerifWriteHexInt expose the chunk-size codecs.
 func VerifReadHexInt(r *bufio.Reader) (int, error)  { return readHexInt(r) }
 func VerifWriteHexInt(w *bufio.Writer, n int) error { return writeHexInt(w, n) }
+
+// VerifTables returns the byte-class lookup tables by name.
+func VerifTables() map[string]string {
+	return map[string]string{
+		"hex2int":        hex2intTable,
+		"toLower":        toLowerTable,
+		"toUpper":        toUpperTable,
+		"quotedArg":      quotedArgShouldEscapeTable,
+		"quotedPath":     quotedPathShouldEscapeTable,
+		"validHeaderKey": validHeaderFieldByteTable,
+		"validHeaderVal": validHeaderValueByteTable,
+		"validMethod":    validMethodValueByteTable,
+	}
+}
+
+// VerifParseRFC1123DateGMT exposes the fast RFC 1123 date parser.
+func VerifParseRFC1123DateGMT(b []byte) (time.Time, bool) { return parseRFC1123DateGMT(b) }
